@@ -13,12 +13,18 @@
 (*          each fake store did: ok / err / lost (accepted, but the client *)
 (*          got an error or ran into the breaker's time-out); `open` =     *)
 (*          breakers open from now until the next shard event              *)
+(*   cancel the request context given to StoreDocuments was found done     *)
+(*          (cancelled by the harness after a shard call, or its deadline  *)
+(*          passed), logged when the harness makes / first sees it so      *)
 (*   ret    StoreDocuments returned: res = ok (nil) / err; acc = what the  *)
 (*          fake stores hold (their own bookkeeping)                       *)
 (* Not logged, hence left to the nondeterminism of the original actions:   *)
 (* ColdSkip, TierEmpty, AttemptFailed and BreakerReject (a rejected call   *)
-(* never reaches a store); BreakerReject(s) is only allowed for a breaker  *)
-(* the harness saw open (unless guard = FALSE).  The client's `written`    *)
+(* never reaches a store); BreakerReject(s, k) is only allowed for a       *)
+(* breaker the harness saw open (k = "open") or filled up to MaxConcurrent *)
+(* with other bulks parked inside it (k = "limit"), unless guard = FALSE.  *)
+(* GiveUp (cfg with Strict = FALSE only) is silent as well.                *)
+(* The client's `written`                                                  *)
 (* bits are not observable either: TLC infers them, and a replica skipped  *)
 (* although the inferred bit is FALSE makes the trace unexplainable.       *)
 (* shard.Bulk may re-send to replicas already written (Strict = FALSE in   *)
@@ -27,7 +33,7 @@
 EXTENDS BulkWrite, IOUtils
 
 VARIABLES l,      \* next line of the trace to explain
-          open,   \* breakers observed open: set of <<tier, shard>>
+          open,   \* breakers observed rejecting: set of <<tier, shard, kind>>
           guard   \* TRUE: BreakerReject only for breakers in `open`
 tvars == <<vars, l, open, guard>>
 
@@ -35,10 +41,10 @@ Trace == ndJsonDeserialize(IOEnv.TRACE)
 TraceMaxTries == Trace[1].maxtries          \* cfg: MaxTries <- TraceMaxTries (consts.BulkMaxTries of the code under test)
 
 TopoOf(e) == [hs |-> e.hs, hr |-> e.hr, cs |-> e.cs, cr |-> e.cr]
-OpenOf(e) == {<<e.open[i].t, e.open[i].s>> : i \in DOMAIN e.open}
+OpenOf(e) == {<<e.open[i].t, e.open[i].s, e.open[i].k>> : i \in DOMAIN e.open}
 
 TInit == /\ Trace[1].ev = "reset"
-         /\ InitFor(TopoOf(Trace[1])) /\ budget = 0
+         /\ InitFor(TopoOf(Trace[1])) /\ budget = 0 /\ cancelAt = 0
          /\ l = 2 /\ open = OpenOf(Trace[1]) /\ guard = Trace[1].guard
 
 TShard ==
@@ -53,6 +59,11 @@ TShard ==
         /\ open' = OpenOf(e)
   /\ l' = l + 1 /\ UNCHANGED guard
 
+TCancel ==
+  /\ l <= Len(Trace) /\ Trace[l].ev = "cancel"
+  /\ \E k \in CtxKinds : CtxDone(k)
+  /\ l' = l + 1 /\ UNCHANGED <<open, guard>>
+
 TRet ==
   /\ l <= Len(Trace) /\ Trace[l].ev = "ret"
   /\ result # "none" /\ result = Trace[l].res
@@ -64,15 +75,16 @@ TReset ==
   /\ topo' = TopoOf(Trace[l]) /\ attempt' = 1 /\ tier' = "cold" /\ tried' = {}
   /\ written' = Blank /\ accepted' = Blank /\ coldWritten' = FALSE /\ result' = "none"
   /\ seen' = NoSeen /\ rejs' = <<{}>> /\ budget' = 0
+  /\ ctxDone' = FALSE /\ cancelAt' = 0 /\ ckind' = "-"
   /\ l' = l + 1 /\ open' = OpenOf(Trace[l]) /\ guard' = Trace[l].guard
 
 TSilent ==
   /\ l <= Len(Trace) /\ Trace[l].ev # "reset"
-  /\ \/ ColdSkip \/ TierEmpty \/ AttemptFailed
-     \/ \E s \in AllS : (~guard \/ <<tier, s>> \in open) /\ BreakerReject(s)
+  /\ \/ ColdSkip \/ TierEmpty \/ AttemptFailed \/ GiveUp
+     \/ \E s \in AllS : \E k \in RejectKinds : (~guard \/ <<tier, s, k>> \in open) /\ BreakerReject(s, k)
   /\ UNCHANGED <<l, open, guard>>
 
-TNext == TShard \/ TRet \/ TReset \/ TSilent
+TNext == TShard \/ TCancel \/ TRet \/ TReset \/ TSilent
 TSpec == TInit /\ [][TNext]_tvars
 
 \* The trace is accepted iff some behaviour explains every line, i.e. a state with l = Len(Trace) + 1 is
